@@ -199,6 +199,9 @@ class SimNet:
                 raise aiohttp.ServerDisconnectedError()
             if fault == 'cancel_handler' and (task.cancelled() or task.exception() is not None):
                 raise aiohttp.ServerDisconnectedError()
+            if task.cancelled():
+                # the server cancelled the handler (graceful shutdown): the client sees the connection go away
+                raise aiohttp.ServerDisconnectedError()
             res = task.result()
         except asyncio.CancelledError:
             # the client went away; the server keeps handling the request
